@@ -45,6 +45,17 @@ CHECKS = {
         "Trusted: the small output parsers in vk/obs.py; '!' is only generated on aliases of bool options. Bounds: <=12 options, <=9 aliases.",
         "DESIGN.md 3/C07",
     ),
+    "C06": (
+        "exploration",
+        "property-based testing with a validity predicate over outputs and a totality check of every writer (Hypothesis)",
+        "Generated number-heavy trees x inputs through set_value and sdkconfig lines (valid, differently spelled, lax, malformed, negative, "
+        "huge, nan/inf, empty); every option's value must match its type's lexical form, lie inside the active range, and every writer "
+        "must complete and render the same number (hex with 0x, typed JSON). Validity predicates are the right oracle here because many "
+        "values are admissible.",
+        "Trusted: the lexical forms in vk/props/c06.py (an explicit '+' is admitted for int/float); ranges whose bound operand has no "
+        "numeric value are not judged; the config-server door is exercised by C14/C15's driver.",
+        "DESIGN.md 3/C06",
+    ),
 }
 
 NOT_YET = {}
